@@ -26,10 +26,16 @@ def write_tree(root, files):
                 f.write(content)
 
 
-def stub_toolchain_env(log=None):
+def stub_toolchain_env(log=None, backend=None):
     env = {'CC': 'vcc', 'CXX': 'vc++', 'AR': 'var', 'FC': 'vfc'}
     if log:
         env['VSTUB_LOG'] = log
+    if backend == 'make':
+        # the stub compilers then write the depfile gcc would write for the source ("out: src"
+        # with gcc's escaping), so that bfg9000-depfixer and the Makefile's -include lines get
+        # real input.  Not for Ninja: there the depfile goes from the compiler straight to the
+        # tool (deps = gcc), bfg9000 is not involved.
+        env['VSTUB_REAL_DEPFILE'] = '1'
     return env
 
 
